@@ -164,7 +164,7 @@ CLAIMED = {
               "operation sequence and every tower height, refinement of insert/remove to the sorted-list Spec, engine-level refinement for ZADD/ZINCRBY/ZREM/ZPOP histories, "
               "query-consistency laws (rank, reverse rank, score ranges, pops) and the rank-window arithmetic for all integers, NaN refusal and all-or-nothing ZADD - Lean "
               "theorems; the real SkipList is compared level by level after every op (verif_dump_levels), the engine functions and the TCP handlers reply by reply (18k evaluations)."),
-        note=TB + "Scores are order keys of non-NaN f64 (float addition for ZINCRBY is computed by the harness); the pointer walk is modelled as a list-position walk justified by the invariant; memory safety of the raw-pointer code is out of scope.",
+        note=TB + "Scores are order keys of non-NaN f64 (float addition for ZINCRBY is computed by the harness); the pointer walk is modelled as a list-position walk justified by the invariant; memory safety of the raw-pointer code is out of scope. A multi-member ZADD/ZREM/ZPOPMIN/ZPOPMAX is ONE step of the machine (zadd_is_one_step, zrem_zpop_one_step): this rests on the lock scope read from the source (Gen.zsetOneCall, oneCallOneLock), not on a proof about the Rust locks.",
         ref="DESIGN.md section 5 C04, Appendix D2"),
     "C14": dict(
         text=("Proof: the three subscription maps are mutual inverses after every history, acknowledgement counts, publish = one delivery per matching subscription (reply = their "
